@@ -1,7 +1,7 @@
 """Obligations for C06."""
 from oblib import ob
 
-BOUNDS = {'quick': 'Inside: all sequences of k calls (k=2,3) over {Null, False, True, BeginObject, EndObject, BeginArray, EndArray, String(s) with 1-2 symbolic bytes, Uint(7), WriteValue(v) with 1-3 symbolic bytes over {}[]:,"a1 space}, starting from the empty encoder and from 6 concrete mid-states (name expected, value expected nested, inside array, nested with sibling names, after array element, after an object whose names exceeded 1 KiB - the latter through the dedicated nsreuse obligations), for AllowDuplicateNames x AllowInvalidUTF8, to an accept-all writer, against zzspec.EncModel after every call (accept iff model; delivered+buffered bytes = model serialisation; everything delivered at depth 0; OutputOffset; StackDepth). Plus: namespace re-use after an object whose names exceeded 1 KiB was closed: two names of 1 symbolic byte (thorough: 2) written into the next object at that depth are accepted iff the model accepts them. Outside: k>3 (thorough: 4), whitespace options (C12), longer strings.', 'thorough': 'As quick with k up to 4 from the empty state, k=3 from the mid-states, strings up to 2 and raw values up to 4 symbolic bytes.'}
+BOUNDS = {'quick': 'Inside: all sequences of k calls (k=2,3) over {Null, False, True, BeginObject, EndObject, BeginArray, EndArray, String(s) with 1-2 symbolic bytes, Uint(7), WriteValue(v) with 1-3 symbolic bytes over {}[]:,"a1 space}, starting from the empty encoder and from 6 concrete mid-states (name expected, value expected nested, inside array, nested with sibling names, after array element, after an object whose names exceeded 1 KiB - the latter through the dedicated nsreuse obligations), for AllowDuplicateNames x AllowInvalidUTF8, to an accept-all writer, against zzspec.EncModel after every call (accept iff model; delivered+buffered bytes = model serialisation; everything delivered at depth 0; OutputOffset; StackDepth). Plus: namespace re-use after an object whose names exceeded 1 KiB was closed: two names of 1 symbolic byte (thorough: 2) written into the next object at that depth are accepted iff the model accepts them. Outside: k>3 (thorough: 4), whitespace options (C12), longer strings.', 'thorough': 'As quick with k=3 from the empty state and from three mid-states, strings of 2 and raw values of 3 symbolic bytes for k=2 (k=4, and k=3 with 3-byte raw values, exceed 10^6 paths per obligation and are left out), namespace re-use with 2-byte names.'}
 ASSUMPTIONS = []
 
 
@@ -12,7 +12,7 @@ def obligations(tier):
     for d in B:
         for u in B:
             for pre, k, sl, rl in ([(0, 2, 1, 2), (0, 3, 1, 1), (1, 2, 1, 3), (2, 2, 1, 2), (3, 2, 1, 2), (4, 2, 1, 3), (5, 2, 1, 2)] if q else
-                                   [(0, 2, 2, 3), (0, 3, 1, 2), (0, 4, 1, 1), (1, 2, 2, 4), (1, 3, 1, 3), (2, 3, 1, 2), (3, 3, 1, 2), (4, 2, 2, 4), (4, 3, 1, 3), (5, 3, 1, 2)]):
+                                   [(0, 2, 2, 3), (0, 3, 1, 2), (1, 2, 2, 3), (2, 3, 1, 2), (3, 3, 1, 2), (4, 2, 2, 3), (5, 3, 1, 2)]):
                 L.append(ob("seq/pre=%d/k=%d/str=%d/raw=%d/dup=%d/utf8=%d" % (pre, k, sl, rl, d, u), "jsontext", "VerifC06Seq", [pre, k, sl, rl, d, u], covers=["accepted", "rejected"]))
     for d in B:
         L.append(ob("nsreuse/str=1/dup=%d" % d, "jsontext", "VerifC06NamespaceReuse", [1, d], covers=["second-accepted"] + ([] if d else ["second-rejected"])))
